@@ -794,7 +794,8 @@ func pollsDuringFailingActivations(t *testing.T, r *evid.Run, dir string) {
 // conditional get with any V other than the active version delivers it - zero bytes, its version number - at
 // the DB API and through the real client; with V = active it is "not changed".
 func emptyActiveValue(t *testing.T, r *evid.Run, dir string) {
-	d, err := realdb.Open(filepath.Join(dir, "emptyactive.db"), realdb.DummyKey("c09ea"))
+	dbPath := filepath.Join(dir, "emptyactive.db")
+	d, err := realdb.Open(dbPath, realdb.DummyKey("c09ea"))
 	if err != nil {
 		t.Fatal(err)
 	}
@@ -818,13 +819,22 @@ func emptyActiveValue(t *testing.T, r *evid.Run, dir string) {
 			if err := d.Activate(su, name, api.SecretVersion(active)); err != nil {
 				t.Fatal(err)
 			}
+			// (also after a restart: the database opened again from its file)
+			d2, rerr := realdb.Open(dbPath, realdb.DummyKey("c09ea"))
+			if rerr != nil {
+				r.Violation("db-conditional-get-wrong", -1, "the database does not open again: "+rerr.Error(), nil)
+				return
+			}
 			for _, v := range []uint32{0, 1, 2, 3, 4, 5, 0xFFFFFFFF} {
-				for _, front := range []string{"db", "http"} {
+				for _, front := range []string{"db", "http", "db after a restart"} {
 					var sv *api.SecretValue
 					var err error
-					if front == "db" {
+					switch front {
+					case "db":
 						sv, err = d.GetConditional(su, name, api.SecretVersion(v))
-					} else {
+					case "db after a restart":
+						sv, err = d2.GetConditional(su, name, api.SecretVersion(v))
+					default:
 						sv, err = cl.GetIfChanged(ctx, name, api.SecretVersion(v))
 					}
 					r.Eval(1)
@@ -837,9 +847,9 @@ func emptyActiveValue(t *testing.T, r *evid.Run, dir string) {
 						ok = c == refmodel.OK && sv != nil && uint32(sv.Version) == active && string(sv.Value) == string(vals[active-1])
 					}
 					if !ok {
-						key := front + "-conditional-get-wrong"
+						key := strings.Fields(front)[0] + "-conditional-get-wrong"
 						if c == refmodel.NotChanged {
-							key = front + "-not-modified-although-changed"
+							key = strings.Fields(front)[0] + "-not-modified-although-changed"
 						}
 						r.Violation(key, -1, fmt.Sprintf("secret %q: versions 1..4 hold %q; version %d is active; %s get-if-changed V=%d answered %s %v (err %v)", name, vals, active, front, v, c, sv, err), nil)
 						return
